@@ -37,6 +37,9 @@ ARRAY_VALUES = {
     "points_poincare": {"frac": [[0.25, -0.5], [0.0, 0.5]], "int": [[0, 0], [0, 0]]},
     "transformation_from_parts": {"frac": [[2, 0.5, 0], [0, 1, 0], [0, 0, 1]], "int": [[2, 1, 0], [0, 1, 0], [0, 0, 1]]},
     "polygon_from_parts": {"frac": [[1.0, 0.5, 0.0], [1.0, 0.0, 0.5], [1.0, -0.5, -0.25]], "int": [[2, 1, 0], [2, 0, 1], [3, -1, -1]]},
+    "hyperplane_reflection": {"frac": [0.5, 1.5, 0.25], "int": [1, 2, 0]},
+    "hyperplane_reflection_scaled": {"frac": [1.5, 4.5, -0.75], "int": [3, 6, -3]},
+    "geodesic_reflection": {"frac": [[1.5, 1.5, 0.0], [0.5, 0.0, -0.5]], "int": [[3, 3, 0], [2, 0, -2]]},
 }
 
 
@@ -45,8 +48,20 @@ def pack_scalar(p, v):
         "py_float": lambda: float(v), "py_int": lambda: int(v),
         "np_float64": lambda: np.float64(v), "np_float32": lambda: np.float32(v),
         "np_int64": lambda: np.int64(v), "np_int32": lambda: np.int32(v),
+        "np_int16": lambda: np.int16(v), "np_uint8": lambda: np.uint8(v),
         "zero_d_float": lambda: np.array(float(v)), "zero_d_int": lambda: np.array(int(v)),
+        "zero_d_int32": lambda: np.array(int(v), dtype=np.int32), "zero_d_int16": lambda: np.array(int(v), dtype=np.int16),
+        "zero_d_uint8": lambda: np.array(int(v), dtype=np.uint8),
     }[p]()
+
+
+def exact_cast(v, dtype):
+    """the packaging must carry the value exactly (the spec's domain says it can); anything else is a fault of the
+    tables of this harness, not of the library"""
+    a = np.array(v)
+    if (a < 0).any():
+        raise core.MachineryFailure("value %r is not in the domain of an unsigned packaging (Packaging.tla SignedValueEntries)" % (v,))
+    return a.astype(dtype)
 
 
 def pack_array(p, v):
@@ -56,11 +71,13 @@ def pack_array(p, v):
         "nested_list_float": lambda: deep(float, v), "nested_list_int": lambda: deep(int, v),
         "ndarray_float64": lambda: np.array(v, dtype=np.float64), "ndarray_float32": lambda: np.array(v, dtype=np.float32),
         "ndarray_int64": lambda: np.array(v, dtype=np.int64),
+        "ndarray_int32": lambda: np.array(v, dtype=np.int32), "ndarray_int16": lambda: np.array(v, dtype=np.int16),
+        "ndarray_uint8": lambda: exact_cast(v, np.uint8),
         "tuple_float": lambda: tuple(deep(float, v)) if not isinstance(v[0], list) else tuple(tuple(deep(float, r)) for r in v),
     }[p]()
 
 
-def call(entry, x):
+def call(entry, x, tol=1e-9):
     """returns a list of arrays/scalars: the data of the object the entry point returns (+ follow-up outputs)"""
     from geometry_tools import utils, coxeter
     from geometry_tools import projective as P
@@ -109,6 +126,13 @@ def call(entry, x):
     if entry == "point_projective":
         p = H.Point(x)
         return [p.coords("klein"), p.coords("hyperboloid"), p.coords("halfspace"), p.origin_to().matrix]
+    if entry in ("hyperplane_reflection", "hyperplane_reflection_scaled", "geodesic_reflection"):
+        h = H.Geodesic(x) if entry == "geodesic_reflection" else H.Hyperplane(x)
+        r = h.reflection_across()
+        q = H.Point(np.array([3.0, 2.0, 2.0]))
+        # the reflection, its square (the identity), the image of a point, and the form it preserves
+        m = np.asarray(r.matrix)
+        return [m, (r @ r).matrix, (r @ q).coords("klein"), m @ hc.J(3) @ np.swapaxes(m, -1, -2)]
     if entry == "transformation":
         t = P.Transformation(x)
         return [t.matrix, t.inv().matrix, (t @ P.Point(np.array([1.0, 2.0, 3.0]))).proj_data]
@@ -135,7 +159,7 @@ def call(entry, x):
         # unit by unit, what the scalar call gives
         for idx in np.ndindex(th.shape):
             one = np.asarray(H.IdealPoint.from_angle(float(th[idx])).proj_data, float)
-            if data.shape != th.shape + (3,) or not np.allclose(data[idx], one, atol=1e-12):
+            if data.shape != th.shape + (3,) or not np.allclose(data[idx], one, atol=max(1e-12, tol)):
                 raise AssertionError("from_angle(array)%r = %r, from_angle(%r) = %r" % (idx, data[idx].tolist() if data.shape == th.shape + (3,) else data.shape, float(th[idx]), one.tolist()))
         return [p.proj_data, p.coords("klein")]
     if entry == "point_from_parts":
@@ -167,18 +191,18 @@ def make_input(entry, pack, val, canonical=False):
     if entry in ("coxeter_matrix", "triangle_group", "coxeter_diagram"):
         labels = [[1, 3, -1], [3, 1, 7], [-1, 7, 1]]           # an infinite label, written as a negative number
         if entry == "coxeter_matrix":
-            if pack in ("ndarray_int64",):
-                return np.array(labels, dtype=np.int64)
+            if pack in ("ndarray_int64", "ndarray_int32"):
+                return np.array(labels, dtype=np.int64 if pack == "ndarray_int64" else np.int32)
             if pack == "ndarray_float64":
                 return np.array(labels, dtype=np.float64)
             if pack == "nested_list_float":
                 return [[float(v) for v in row] for row in labels]
             if pack == "nested_list_int":
                 return labels
-            f = {"py_int": int, "np_int64": np.int64, "np_int32": np.int32}[pack]
+            f = {"py_int": int, "np_int64": np.int64, "np_int32": np.int32, "np_int16": np.int16}[pack]
             return [[f(v) for v in row] for row in labels]
-        f = {"py_int": int, "np_int64": np.int64, "np_int32": np.int32, "ndarray_int64": np.int64, "nested_list_int": int,
-             "ndarray_float64": np.float64, "nested_list_float": float}[pack]
+        f = {"py_int": int, "np_int64": np.int64, "np_int32": np.int32, "np_int16": np.int16, "ndarray_int64": np.int64,
+             "ndarray_int32": np.int32, "nested_list_int": int, "ndarray_float64": np.float64, "nested_list_float": float}[pack]
         if entry == "triangle_group":
             t = (f(3), f(3), f(4))
             return np.array(t) if pack.startswith("ndarray") else (list(t) if pack.startswith("nested_list") else t)
@@ -196,24 +220,25 @@ def kind_of(a):
 
 def run(run):
     from geometry_tools import utils
-    c = core.cfg(invariants=["NeverObject", "CanonicalInDomain", "Coverage", "EmitCase"])
+    c = core.cfg(invariants=["NeverObject", "CanonicalInDomain", "CanonicalFullPrecision", "ToleranceBounded", "Coverage", "NarrowIntCoverage", "EmitCase"])
     r = run.tlc("num/Packaging.tla", c, name="Packaging", workers=2, emit_prefix="CASE ")
     for e in r.emits:
         entry, pack, val = e["entry"], e["pack"], e["val"]
         key = "pack:%s:%s:%s" % (entry, pack, val)
         run.case(key=key, nontrivial=pack != e["canonical"], action="packaging:" + entry)
+        x_ref, x_in = make_input(entry, e["canonical"], val), make_input(entry, pack, val)
         try:
             with np.errstate(all="ignore"):
-                ref = call(entry, make_input(entry, e["canonical"], val))
+                ref = call(entry, x_ref)
         except Exception as ex:
             run.violation(key + ":canonical", "packaging:canonical_raised", dict(entry=entry, value=val, packaging=e["canonical"],
                                                                                  error="%s: %s" % (type(ex).__name__, ex)))
             continue
         try:
             with np.errstate(all="ignore"):
-                res = call(entry, make_input(entry, pack, val))
+                tol = e["tol"][0] * 10.0 ** (-e["tol"][1])          # precision of the packaging (spec)
+                res = call(entry, x_in, 1e-12 if (e["precision"] == "float64" or "float" in pack) else tol)
             bad = None
-            tol = 2e-6 if "float32" in pack else 1e-9
             for i, (a, b) in enumerate(zip(res, ref)):
                 k = kind_of(a)
                 ok_kinds = "fc" if e["kind"] == "float" else "fciu"
